@@ -444,8 +444,76 @@ def execute_string_annotations(ex: Execution, which: str) -> tuple[Any, list[Any
         return {"outcome": out[0], "_metrics": {"max_concurrency": 1}}, v
 
 
+def execute_config_two_instances(ex: Execution, mutate_first: bool) -> tuple[Any, list[Any]]:
+    """two instances of one workflow class take their settings from the same JSON file (ResourceConfig): the model object is created once
+    PER INSTANCE - both steps of an instance get the same object, the other instance gets its own (what one instance does to its
+    settings must not show in the other)"""
+    import json as _json
+    import os as _os
+    import tempfile as _tf
+
+    from pydantic import BaseModel
+
+    from workflows.resource import ResourceConfig
+
+    class Settings(BaseModel):
+        hosts: list[str]
+        retries: int = 1
+
+    d = _tf.mkdtemp(prefix="vmc-c22-")
+    path = _os.path.join(d, "settings.json")
+    open(path, "w").write(_json.dumps({"pool": {"hosts": ["primary"], "retries": 2}}))
+    got: dict[str, list[Any]] = {"i1": [], "i2": []}
+    try:
+        with EngineExec(ex, RunConfig()) as e:
+            def mk(tag: str) -> Any:
+                async def first(self, ctx, ev, inv, **res):  # noqa: ANN001
+                    got[tag].append(res["cfg"])
+                    if mutate_first and tag == "i1":
+                        res["cfg"].hosts.append("failover-of-i1")
+                    await gate(f"{tag}:first")
+                    return A(uid=1)
+
+                async def second(self, ctx, ev, inv, **res):  # noqa: ANN001
+                    got[tag].append(res["cfg"])
+                    return StopEvent(result=list(res["cfg"].hosts))
+
+                ann = {"cfg": Annotated[Settings, ResourceConfig(config_file=path, path_selector="pool")]}
+                return make_workflow("CfgWf", [make_step("first", [StartEvent], [A], first, extra_params=ann),
+                                               make_step("second", [A], [StopEvent], second, extra_params=ann)])
+
+            cls1, cls2 = mk("i1"), mk("i2")
+            rt = MonRuntime(BasicRuntime())
+            h1 = cls1(timeout=None, runtime=rt).run(run_id="r1")
+            h2 = cls2(timeout=None, runtime=rt).run(run_id="r2")
+            e.cfg.stop_when = lambda hh: h1.is_done() and h2.is_done()
+            e.drive()
+            out1, out2 = task_outcome(h1._result_task), task_outcome(h2._result_task)
+        v: list[Any] = []
+        w = {"mode": "config_two_instances", "first_instance_mutates": mutate_first}
+        if out1[0] != "result" or out2[0] != "result":
+            v.append(("run_failed", w, f"runs ended {out1} / {out2}"))
+        else:
+            for tag in ("i1", "i2"):
+                if len(got[tag]) == 2 and got[tag][0] is not got[tag][1]:
+                    v.append(("cached_resource_created_more_than_once", w, f"instance {tag}: its two steps received two different settings objects"))
+            if got["i1"] and got["i2"] and got["i1"][0] is got["i2"][0]:
+                v.append(("cached_resource_shared_between_workflow_instances", w, "both workflow instances were handed the same settings object"))
+            r2 = getattr(out2[1], "result", out2[1])
+            if r2 != ["primary"]:
+                v.append(("cached_resource_shared_between_workflow_instances", w, f"the second instance saw hosts {r2}, the file says ['primary']"))
+        return {"o": [out1[0], out2[0]], "_metrics": {"max_concurrency": 2}}, v
+    finally:
+        import shutil as _sh
+
+        _sh.rmtree(d, ignore_errors=True)
+
+
 def programs(tier: str) -> list[Program]:
     ps = []
+    for mf in (False, True):
+        ps.append(Program(f"config_two_instances(mutate_first={mf})", {"mode": "config_two_instances", "mutate_first": mf},
+                          (lambda ex, mf=mf: execute_config_two_instances(ex, mf)), max_dev=3, min_concurrency=0))
     for which in ("cycle2", "cycle1", "chain"):
         ps.append(Program(f"string_annotations/{which}", {"graph": which, "mode": "string_annotations"},
                           (lambda ex, which=which: execute_string_annotations(ex, which)), min_concurrency=0))
